@@ -282,23 +282,41 @@ Definition abort_trace (its : list item) : list call :=
   ++ map (fun it => Unlink (pf_path (it_file it))) its
   ++ map (fun it => Unlink (pf_path (it_marker it))) its.
 
-(* A publish sequence whose k-th call (k = 0 .. 3: temp creation, write, fsync -- or the descriptor
-   opened for it --, rename) FAILS with an OS error: the calls before it were issued, the failing call
-   has no effect, and the routine's handler removes the temp file if it had been created and re-raises
-   (write_file: `except Exception: os.remove(temp_path); raise`; DataFileWriter.close likewise). *)
-Definition failed_of (prog : list call) (tmp : path) (k : nat) : list call :=
-  firstn k prog ++ match k with O => [] | S _ => [Unlink tmp] end.
+(* A publish sequence whose k-th call (k = 0 .. 4: temp creation, write, fsync -- or the descriptor
+   opened for it --, rename, DIRECTORY fsync -- or the descriptor opened for it) FAILS with an OS error:
+   the calls before it were issued, the failing call has no effect, the routine's cleanup handler runs
+   and the error is re-raised.  Which failures reach the caller (gen_*_fallible: all five -- a failed
+   directory fsync is NOT swallowed) and what the handler does (gen_*_on_error: `if
+   os.path.exists(temp): os.remove(temp)`) are read off the source by translator/gen_durable.py; the
+   handler's guard is the model's `tmp_live`: the temp name exists from its Create to its Rename, so a
+   failing directory fsync (k = 4) leaves the file LINKED under its final name, its rename not
+   persisted, and nothing is unlinked. *)
+Fixpoint tmp_live (tr : list call) (tmp : path) (b : bool) : bool :=
+  match tr with
+  | [] => b
+  | Create p :: tr' => tmp_live tr' tmp (if path_eqb p tmp then true else b)
+  | Rename p _ :: tr' => tmp_live tr' tmp (if path_eqb p tmp then false else b)
+  | Unlink p :: tr' => tmp_live tr' tmp (if path_eqb p tmp then false else b)
+  | _ :: tr' => tmp_live tr' tmp b
+  end.
+
+Definition failed_of (prog on_error : list call) (tmp : path) (k : nat) : list call :=
+  firstn k prog ++ (if tmp_live (firstn k prog) tmp false then on_error else []).
 
 (* A transaction whose append_data FAILED that way, after `its` had been written: either the marker's
    publish failed (fl = None), or the marker mk was published and the data file's publish failed
    (fl = Some f).  append_data raises, the transaction is rolled back (Transaction.__exit__ ->
-   _rollback: written data files, then registered markers), nothing is committed. *)
+   _rollback: written data files, then registered markers), nothing is committed.  With k = 4 the
+   file whose directory fsync failed stays behind under its final name (append_data raised before
+   recording it in _written_files / _inflight_markers): an orphan no version ever references. *)
 Definition fail_trace (its : list item) (mk : pubfile) (fl : option pubfile) (k : nat) : list call :=
   flat_map (pub_item true) its
   ++ match fl with
-     | None => failed_of (publish_meta (pf_path mk) (pf_content mk)) (tmp_of (pf_path mk)) k
+     | None => failed_of (publish_meta (pf_path mk) (pf_content mk)) (gen_write_file_on_error (tmp_of (pf_path mk)))
+                         (tmp_of (pf_path mk)) k
      | Some f => publish_meta (pf_path mk) (pf_content mk)
-                 ++ failed_of (publish_data (pf_path f) (pf_content f)) (tmp_of (pf_path f)) k
+                 ++ failed_of (publish_data (pf_path f) (pf_content f)) (gen_data_writer_on_error (tmp_of (pf_path f)))
+                              (tmp_of (pf_path f)) k
      end
   ++ map (fun it => Unlink (pf_path (it_file it))) its
   ++ map (fun it => Unlink (pf_path (it_marker it))) its
@@ -397,7 +415,7 @@ Definition wf_fail (used : list path) (its : list item) (mk : pubfile) (fl : opt
   && forallb (fun p => negb (mem p used)) (names_of_fail its mk fl)
   && forallb (fun it => no_refs (it_marker it) && no_refs (it_file it)) its
   && no_refs mk && match fl with None => true | Some f => no_refs f end
-  && (k <? 4)%nat.
+  && (k <? match fl with None => gen_write_file_fallible | Some _ => gen_data_writer_fallible end)%nat.
 
 Definition wf_op (used avail : list path) (o : op) : bool :=
   match o with
